@@ -6,7 +6,7 @@ import ecdsa
 
 PID = "C09"
 LEAN_MODULES = ["BtcHd.Props.C09", "BtcHd.Props.RealInst.C09"]
-LEAN_MODULES_THOROUGH = ['BtcHd.Props.TrAddr']
+LEAN_MODULES_THOROUGH = ['BtcHd.Props.TrAddr', 'BtcHd.Props.TrWallet']
 TRUSTED_BASE = common.CORE_TRUSTED + [
     "curve facts are CurveLaws hypotheses; the concrete Lean secp256k1 (scalar multiplication, square roots, "
     "on-curve test) is compared with python-ecdsa used directly, on every case (testing, not proof)"]
